@@ -235,4 +235,5 @@ MUTANTS["C15"] = [
     ("unite-keeps-first", "annet/mesh/basemodel.py", "        return x | y  # type: ignore[operator]", "        return x  # type: ignore[operator]"),
     # (returning NOT_SET for an unset right-hand value is an equivalent mutant: _merge starts from copy(a) and skips NOT_SET results)
     ("lag-ports-all-connections", "annet/mesh/executor.py", "            if p[0].name in ports\n", "            if p[0].name in ports or True\n"),
+    ("peer-options-multihop-is-bool (revert of a80614b)", "annet/bgp_models.py", "    multipath: Optional[bool] = None\n    multihop: Optional[int] = None\n", "    multipath: Optional[bool] = None\n    multihop: Optional[bool] = None\n"),
 ]
